@@ -76,6 +76,7 @@ def run(chk):
     units.append(("asmjit/core/compiler.cpp", r"asmjit::ArenaStringBase::[A-Za-z_0-9]+$"))      # header-only container, instantiated here
     units.append(("asmjit/core/constpool.cpp", r"asmjit::ConstPool::[A-Za-z_0-9]+$"))
     failpure.run(chk, units)
+    failpure.run_arena_reset(chk)
     failpure.run_commit_last(chk, "asmjit/core/codeholder.cpp", r"asmjit::CodeHolder::[a-z_0-9]+$")
     failpure.run_release_not_failed(chk, [("asmjit/core/virtmem.cpp", r"asmjit::VirtMem::[A-Za-z_0-9]+$"), ("asmjit/core/jitallocator.cpp", r"asmjit::JitAllocator")])
     from lib import outclean
